@@ -312,7 +312,7 @@ def jobs(tier):
         ml = 60 if tier == "quick" else 400
         out.append(job("C07", f"truncate[{fmt},{fn}]", M, "h_parser", dict(fmt=fmt, fn=fn, many=many, fault="truncate", max_lines=ml),
                        budget_s=300 if tier == "quick" else 3000, max_validate=3, max_paths=3000))
-        out.append(job("C07", f"corrupt[{fmt},{fn}]", M, "h_parser", dict(fmt=fmt, fn=fn, many=many, fault="corrupt", max_lines=ml),
+        out.append(job("C07", f"corrupt[{fmt},{fn}]", M, "h_parser", dict(fmt=fmt, fn=fn, many=many, fault="corrupt", max_lines=max(ml, 400)),
                        budget_s=300, max_validate=3, max_paths=200))
         for fault in ("truncate-inline", "lines"):
             out.append(job("C07", f"{fault}[{fmt},{fn}]", M, "h_parser", dict(fmt=fmt, fn=fn, many=many, fault=fault, max_lines=ml),
